@@ -39,8 +39,13 @@ func main() {
 	verif := flag.String("verif", "/verif", "verif directory (evidence, known findings)")
 	list := flag.Bool("list", false, "list implemented properties")
 	listJSON := flag.Bool("list-json", false, "print {property: what its rules decide} as JSON")
+	disc := flag.Bool("discover-locks", false, "development aid: print field/lock co-occurrence statistics")
 	dbg := flag.String("debug-explore", "", "development aid: run the bare explorer on a function spec")
 	flag.Parse()
+	if *disc {
+		discoverLocks(*repo)
+		return
+	}
 	if *dbg != "" {
 		debugExplore(*repo, *dbg)
 		return
